@@ -196,74 +196,103 @@ def check(run):
     G = r"trimesh\.grouping\.group_rows\((?:P_edges_sorted|PHI_edges_sorted|numpy\.sort\(P_edges, axis=1\)), require_count=2\)"
     alts = pw.alternatives("edges_sorted", rets[0]) if "PHI_edges_sorted" in wt_txt + wd_txt else {"P_edges_sorted"}
     alts_ok = alts is not None and alts <= {"P_edges_sorted", "numpy.sort(P_edges, axis=1)"}
-    # the winding test, whatever the spelling: evaluate the constant column selections of the canonical expression on one
-    # symbolic row per twin pair - (x, y, y, x) for properly opposed twins, (x, y, x, y) for twins running the same way
+    # the winding verdict, whatever the spelling: evaluate the canonical expression on a finite model - one group of two
+    # equal sorted edges, whose two directed edges are symbols compared only for equality:
+    #     opposed twins (x, y) / (y, x) -> consistent;  twins running the same way (x, y) / (x, y) -> inconsistent;
+    #     a collapsed edge (x, x) twice (its reverse is itself) -> consistent
     import numpy as _np
 
     from ..index import const_eval as _ce
 
-    XPAT = re.compile(r"P_edges\[" + G + r"\]\.reshape\((?:\(-1, (\d+)\)|-1, (\d+))\)")
-    widths = []
-
     class _Unknown(Exception):
         pass
 
-    def _idx(sl):
+    def _idx(sl, env):
         if isinstance(sl, ast.Slice):
             return slice(*[None if v is None else _ce(v) for v in (sl.lower, sl.upper, sl.step)])
         if isinstance(sl, ast.Tuple):
-            return tuple(_idx(e) for e in sl.elts)
-        return _ce(sl)
+            return tuple(_idx(e, env) for e in sl.elts)
+        try:
+            return _ce(sl)
+        except (ValueError, TypeError):
+            return _ev(sl, env)
 
-    def _ev(e, row):
-        t = ast.unparse(e)
-        mm = XPAT.fullmatch(t)
-        if mm:
-            w = int(mm.group(1) or mm.group(2))
-            widths.append(w)
-            if w != len(row):
-                raise _Unknown(f"reshape width {w}")
-            return _np.array([row], dtype=object)
+    def _arr(x):
+        return x if isinstance(x, _np.ndarray) else _np.asarray(x, dtype=object)
+
+    def _ev(e, env):
+        if isinstance(e, ast.Name):
+            if e.id in env:
+                return env[e.id]
+            raise _Unknown(f"name {e.id}")
+        if isinstance(e, ast.Constant):
+            return e.value
+        if isinstance(e, ast.UnaryOp) and isinstance(e.op, ast.USub) and isinstance(e.operand, ast.Constant):
+            return -e.operand.value
+        if isinstance(e, (ast.Tuple, ast.List)):
+            return [_ev(x, env) for x in e.elts]
         if isinstance(e, ast.Subscript):
             try:
-                return _ev(e.value, row)[_idx(e.slice)]
+                return _arr(_ev(e.value, env))[_idx(e.slice, env)]
             except (ValueError, TypeError, IndexError) as ex:
                 raise _Unknown(f"index `{ast.unparse(e.slice)}`: {ex}")
         if isinstance(e, ast.Attribute) and e.attr == "T":
-            return _ev(e.value, row).T
-        if isinstance(e, ast.Call) and isinstance(e.func, ast.Attribute) and e.func.attr in ("transpose",) and not e.args:
-            return _ev(e.func.value, row).T
-        raise _Unknown(f"`{t[:60]}`")
+            return _arr(_ev(e.value, env)).T
+        if isinstance(e, ast.Compare) and len(e.ops) == 1 and isinstance(e.ops[0], (ast.Eq, ast.NotEq)):
+            l_, r_ = _np.asarray(_ev(e.left, env), dtype=object), _np.asarray(_ev(e.comparators[0], env), dtype=object)
+            r = _np.equal(l_, r_)
+            return r if isinstance(e.ops[0], ast.Eq) else _np.logical_not(r)
+        if isinstance(e, ast.UnaryOp) and isinstance(e.op, (ast.Invert, ast.Not)):
+            return _np.logical_not(_np.asarray(_ev(e.operand, env), dtype=bool))
+        if isinstance(e, ast.Call):
+            fn = ast.unparse(e.func)
+            args = []
+            for a_ in e.args:
+                if isinstance(a_, ast.Starred):
+                    args += list(_np.asarray(_ev(a_.value, env), dtype=object))
+                else:
+                    args.append(_ev(a_, env))
+            kw = {k.arg: _ce(k.value) for k in e.keywords if k.arg in ("axis",)}
+            if len(kw) != len(e.keywords):
+                raise _Unknown(f"keyword in `{fn}`")
+            if fn in ("numpy.equal", "numpy.not_equal") and len(args) == 2:
+                r = _np.equal(_np.asarray(args[0], dtype=object), _np.asarray(args[1], dtype=object))
+                return r if fn == "numpy.equal" else _np.logical_not(r)
+            if fn in ("numpy.logical_and", "numpy.logical_or") and len(args) == 2:
+                return getattr(_np, fn.split(".")[1])(_np.asarray(args[0], dtype=bool), _np.asarray(args[1], dtype=bool))
+            if fn == "numpy.logical_not" and len(args) == 1:
+                return _np.logical_not(_np.asarray(args[0], dtype=bool))
+            if fn in ("numpy.fliplr",) and len(args) == 1:
+                return _np.fliplr(_np.asarray(args[0], dtype=object))
+            if fn in ("numpy.column_stack", "numpy.hstack", "numpy.vstack") and len(args) == 1:
+                return getattr(_np, fn.split(".")[1])([_np.asarray(x, dtype=object) for x in args[0]])
+            if isinstance(e.func, ast.Attribute) and e.func.attr in ("all", "any") and not args:
+                return getattr(_np.asarray(_ev(e.func.value, env), dtype=bool), e.func.attr)(**kw)
+            if isinstance(e.func, ast.Attribute) and e.func.attr == "reshape" and len(args) == 1 and not kw:
+                return _arr(_ev(e.func.value, env)).reshape(tuple(args[0]) if isinstance(args[0], list) else args[0])
+            if fn in ("bool",) and len(args) == 1:
+                return bool(args[0])
+            raise _Unknown(f"call `{fn}`")
+        raise _Unknown(f"`{ast.unparse(e)[:60]}`")
 
-    def _compared(row):
-        """the two operands of the element-wise equality whose .all() is the winding verdict"""
-        tree = ast.parse(wd_txt, mode="eval").body
-        if not (isinstance(tree, ast.Call) and isinstance(tree.func, ast.Attribute) and tree.func.attr == "all" and not tree.args):
-            raise _Unknown("not `(...).all()`")
-        inner = tree.func.value
-        if isinstance(inner, ast.Call) and ast.unparse(inner.func) == "numpy.equal":
-            if len(inner.args) == 1 and isinstance(inner.args[0], ast.Starred):
-                mat = _ev(inner.args[0].value, row)
-                if len(mat) != 2:
-                    raise _Unknown("starred operand does not unpack into two columns")
-                return mat[0], mat[1]
-            if len(inner.args) == 2:
-                return _ev(inner.args[0], row), _ev(inner.args[1], row)
-        if isinstance(inner, ast.Compare) and len(inner.ops) == 1 and isinstance(inner.ops[0], ast.Eq):
-            return _ev(inner.left, row), _ev(inner.comparators[0], row)
-        raise _Unknown("no element-wise equality")
-
+    GSUB = re.sub(G, "GROUPS", wd_txt)
+    MODELS = [("opposed twins (x, y) / (y, x)", [["x", "y"], ["y", "x"]], True),
+              ("twins running the same way (x, y) / (x, y)", [["x", "y"], ["x", "y"]], False),
+              ("a collapsed edge (x, x) occurring twice", [["x", "x"], ["x", "x"]], True)]
     try:
-        o1, o2 = _compared(["x", "y", "y", "x"])
-        s1, s2 = _compared(["x", "y", "x", "y"])
-        sel_opp, sel_same = [list(_np.ravel(o1)), list(_np.ravel(o2))], [list(_np.ravel(s1)), list(_np.ravel(s2))]
-        ok = len(sel_opp[0]) == 1 and len(sel_opp[1]) == 1 and sel_opp[0] == sel_opp[1] and sel_same[0] != sel_same[1] and alts_ok
-        run.instance("R4", fw.where, f"reshape width {sorted(set(widths))}: opposed twin compares {sel_opp}, same-direction twin {sel_same}; "
-                                     f"pairs from groups of two equal sorted edges ({sorted(alts or [])})", ok)
+        tree = ast.parse(GSUB, mode="eval").body
+        results = []
+        for label, edges_m, want in MODELS:
+            got = bool(_ev(tree, {"P_edges": _np.array(edges_m, dtype=object), "GROUPS": _np.array([[0, 1]])}))
+            results.append((label, got, want))
+        ok = all(g == w for _, g, w in results) and alts_ok and "GROUPS" in GSUB
+        run.instance("R4", fw.where, "winding verdict on the three edge-pair models: " + "; ".join(f"{l} -> {g}" for l, g, _ in results)
+                     + f"; pairs from groups of two equal sorted edges ({sorted(alts or [])})", ok)
         if not ok:
-            run.violation("R4", fw.where, "is_watertight's winding test does not compare the head of an edge with the tail of its twin over the groups of two equal sorted edges",
-                          key=key_of("C05-R4", "is_watertight"))
-    except _Unknown as ex:
+            bad = [f"{l}: reports {'consistent' if g else 'inconsistent'}" for l, g, w in results if g != w]
+            run.violation("R4", fw.where, "is_watertight's winding test does not compare the head of an edge with the tail of its twin over the groups of two equal sorted edges"
+                          + (f" ({'; '.join(bad)})" if bad else ""), key=key_of("C05-R4", "is_watertight"))
+    except (_Unknown, SyntaxError) as ex:
         if "P_edges[" not in wd_txt or "group_rows" not in wd_txt:
             run.instance("R4", fw.where, f"winding verdict `{wd_txt[:100]}`", False)
             run.violation("R4", fw.where, "is_watertight's winding test does not compare the head of an edge with the tail of its twin over the groups of two equal sorted edges",
